@@ -188,13 +188,21 @@ def r18_6(chk, facts):
         chk.require(fns, 'basic_csv_parser::%s not found' % fname)
         for fn in U.one_per_inst(fns)[:1]:
             chk.analysed(fn)
+            # the two functions may share their body through a helper that is told whether the field was quoted (E11: the constant
+            # argument is substituted, `quoted ? false : infer_types_` folds to the operand it selects)
+            fn = I.expand(facts, fn, allow=lambda callee, call: callee['n'] != 'end_value', depth=3)
+            al = A.pure_aliases(fn['body'], allow_const_calls=True)
+            inlined = set(id(y['call']) for y in A.walk_no_lambda(fn['body']) if y.get('k') == 'InlinedCall' and isinstance(y.get('call'), dict))
             k = 0
             for call in A.calls_in(fn['body'], no_lambda=True):
-                if A.callee_name(call) != 'end_value': continue
+                if A.callee_name(call) != 'end_value' or id(call) in inlined: continue
                 callee = facts.callee(fn, call)
                 idx = next((i for i, p_ in enumerate((callee or {}).get('params') or []) if p_['n'] == 'infer_types'), 1)
                 args = call.get('args') or []
                 a = args[idx] if idx < len(args) else None
+                for _ in range(3):
+                    sa = A.strip(a, casts=True) if a is not None else None
+                    if sa is not None and sa.get('k') == 'DeclRefExpr' and sa.get('id') in al: a = al[sa['id']]
                 k += 1; n += 1
                 site = U.site(fn, 'end_value#%d infer_types' % k)
                 got = 'false' if (a is not None and A.const(a) == 0) else ('true' if (a is not None and A.const(a) == 1) else (A.ref_name(a) or A.text(a)))
@@ -255,12 +263,20 @@ def reader_escape_table(chk, facts):
                     cmp_ = G.comparison(c.get('cond'))
                     if cmp_ and cmp_[0] == '==' and A.ref_name(cmp_[1]) == v and A.const(cmp_[2]) is not None: tests += 1
                 if c.get('k') == 'SwitchStmt' and A.ref_name(c.get('cond')) == v: tests += 2
-            if tests >= 2: best = (blk, v)
+            if tests >= 2: best = (blk, v, None)
+        # or a switch directly on the character expression (`switch (*(cur+1))`) with character constants as labels
+        for c in blk.get('c') or []:
+            if best is None and c.get('k') == 'SwitchStmt' and not A.ref_name(c.get('cond')):
+                labels = [lab for labs, st in P.PEval.switch_items(c.get('body')) for lab in (labs or []) if lab[0] != 'default']
+                if len(labels) >= 3 and any(y.get('k') == 'UnaryOperator' and y.get('op') == '*' for y in A.walk(c.get('cond'))): best = (blk, None, c.get('cond'))
     chk.require(best is not None, 'toon unescape_string: dispatch on the escaped character not found')
-    blk, v = best
+    blk, v, cexpr = best
     table = {}
     for x in range(256):
-        pe = P.PEval(facts, fn, bind={v: x if x < 128 else x - 256}, max_depth=1)
+        xv = x if x < 128 else x - 256
+        pe = P.PEval(facts, fn, bind=({v: xv} if v else {}), max_depth=1)
+        if cexpr is not None:
+            for y in A.walk(cexpr): pe.expr_values[id(y)] = xv      # the operand and the casts around it
         r = pe.exec_stmt(blk, {}, (), 0)
         stores = [e for e in pe.effects if e.kind == 'set' and e.name.startswith('*') and not e.guards and e.args and isinstance(e.args[0], int)]
         rejects = [e for e in pe.effects if e.kind == 'return' and not e.guards]
